@@ -323,7 +323,7 @@ class C13(Prop):
 class C09(Prop):
     pid = 'C09'
     variants = ['release', 'debug', 'release-zb', 'debug-zb']
-    k_fields = ['R']
+    k_fields = ['R', 'A']   # A: the result after optimize (script cases only)
     o_fields = ['fold']
     isolate = True
     per_case_timeout = 0.3
@@ -352,7 +352,7 @@ class C09(Prop):
         if k is not None and 'PANIC' in k:
             if el and el[0] == 'bi' and el[3] == core.s('sort') and builtins.is_nontame_arr(el[4:]):
                 return 'sort_panics_on_inconsistent_order'
-            if el and el[0] == 'script' and core.text_of(line).startswith('sort('):
+            if el and el[0] in ('script', 'script0') and core.text_of(line).startswith('sort('):
                 return 'sort_panics_on_inconsistent_order'
         if el and el[0] == 'bi' and el[3] in (core.s('sort'), core.s('max'), core.s('min')) and builtins.is_nontame_arr(el[4:]) and (k is None or 'PANIC' not in k):
             return 'unordered_result_on_inconsistent_order'
@@ -364,8 +364,8 @@ class C09(Prop):
 
 class C14(Prop):
     pid = 'C14'
-    k_fields = ['R']
-    o_fields = ['det', 'foldeq', 'hasheq', 'fmtref']
+    k_fields = ['R', 'A']
+    o_fields = ['det', 'foldeq', 'hasheq', 'fmtref', 'fold']
     known_covers_k = True
     rule = ('every pure registered builtin on arrays whose elements are equal across kinds (1, \'1\', \'1.0\', true, 0, \'0\', false, \'\', -0), on the boundary '
             'pool, on random argument lists and on clusters of NEARLY identical arguments (same second / different millisecond, adjacent doubles, texts differing in one character or in case) '
@@ -390,6 +390,8 @@ class C14(Prop):
         pool = builtins.POOL
         out.append(('(hashclass _ ' + ' '.join(pool) + ')', 'release'))
         out.append(('(hashclass _ ' + ' '.join(builtins.EQ_SPELLINGS) + ')', 'release'))
+        # whole programs over the real standard library, executed as written (R) and after optimize (A): folding is calling - both equal the pipeline model
+        out += [(c, 'release') for c in builtins.gen_composite_scripts(tier, R, 1)]
         return out
 
     def known(self, line, k, o):
